@@ -1,6 +1,7 @@
 package main
 
 import (
+	"go/token"
 	"fmt"
 	"go/types"
 	"sort"
@@ -459,6 +460,11 @@ func freshArgs(x *SX) []*SX {
 // applyModifies havocs the locations named in the modifies clauses (evaluated in the pre-state).
 func (f *frame) applyModifies(ct *Contract, env *SpecEnv) {
 	u := f.u
+	for _, hn := range sortedKeys(u.eng.newFieldHeaps) {
+		if u.eng.heapSorts[hn] != "" {
+			u.havocHeap(f.cur, hn) // see alias.go: fields unknown to the contracts
+		}
+	}
 	for _, m := range ct.Modifies {
 		x := m.X
 		switch x.Op {
@@ -901,8 +907,82 @@ func (f *frame) localResolver(at *ssa.BasicBlock) func(string) (Val, bool) {
 		if best != nil {
 			return f.value(best), true
 		}
+		return f.loopFormFallback(at, name)
+	}
+}
+
+// loopFormFallback keeps an invariant attachable when a loop over a slice was rewritten between the
+// range form and the index form. Both count completed iterations: the index variable i of
+// `for i := 0; i < n; i++` equals rangeindex+1 of `for i := range s`. As with renamed variables the
+// binding is a guess that the proof then has to bear out.
+func (f *frame) loopFormFallback(at *ssa.BasicBlock, name string) (Val, bool) {
+	isOne := func(v ssa.Value) bool {
+		c, ok := v.(*ssa.Const)
+		return ok && c.Value != nil && c.Value.ExactString() == "1"
+	}
+	if name == "rangeindex" {
+		// the loop is now an index loop: exactly one integer phi that starts at 0 and is incremented by 1
+		var cand *ssa.Phi
+		n := 0
+		for _, ins := range at.Instrs {
+			phi, ok := ins.(*ssa.Phi)
+			if !ok {
+				break
+			}
+			if b, ok := phi.Type().Underlying().(*types.Basic); !ok || b.Kind() != types.Int {
+				continue
+			}
+			zero, step := false, false
+			for _, e := range phi.Edges {
+				if c, ok := e.(*ssa.Const); ok && c.Value != nil && c.Value.ExactString() == "0" {
+					zero = true
+				}
+				if bo, ok := e.(*ssa.BinOp); ok && bo.Op == token.ADD && bo.X == ssa.Value(phi) && isOne(bo.Y) {
+					step = true
+				}
+			}
+			if zero && step {
+				cand = phi
+				n++
+			}
+		}
+		if n == 1 {
+			if v, ok := f.vals[cand].(Term); ok && v.T.K == KInt {
+				f.u.note("invariant of " + f.key + ": rangeindex re-attached to index variable " + cand.Comment + " - 1 (loop form changed)")
+				return sub(v, Term{"1", sInt}), true
+			}
+		}
 		return nil, false
 	}
+	// the loop is now a range loop whose key variable has that name
+	var ri *ssa.Phi
+	for _, ins := range at.Instrs {
+		phi, ok := ins.(*ssa.Phi)
+		if !ok {
+			break
+		}
+		if phi.Comment == "rangeindex" {
+			ri = phi
+		}
+	}
+	if ri == nil {
+		return nil, false
+	}
+	for _, b := range f.fn.Blocks {
+		for _, ins := range b.Instrs {
+			dr, ok := ins.(*ssa.DebugRef)
+			if !ok || dr.IsAddr || dr.Object() == nil || dr.Object().Name() != name {
+				continue
+			}
+			if bo, ok := dr.X.(*ssa.BinOp); ok && bo.Op == token.ADD && bo.X == ssa.Value(ri) && isOne(bo.Y) {
+				if v, ok := f.vals[ri].(Term); ok && v.T.K == KInt {
+					f.u.note("invariant of " + f.key + ": " + name + " re-attached to rangeindex + 1 (loop form changed)")
+					return add(v, Term{"1", sInt}), true
+				}
+			}
+		}
+	}
+	return nil, false
 }
 
 func domDepth(b *ssa.BasicBlock) int {
@@ -1121,6 +1201,9 @@ func (f *frame) loopMods(li *loopInfo) map[string]*modFrame {
 	}
 	f.u.scanMods(f.fn, func(b *ssa.BasicBlock) bool { return li.body[b.Index] }, add, 0)
 	mods["G.nextRef"] = &modFrame{}
+	for hn := range f.u.eng.newFieldHeaps {
+		mods[hn] = &modFrame{} // fields unknown to the contracts: any call in the body may write them
+	}
 	return mods
 }
 
